@@ -78,4 +78,78 @@ example :
     (run L x.s [Event.pressed 42, Event.pressed 30]).2 = (run L State.init [Event.pressed 42, Event.pressed 30]).2 := by
   decide
 
+/-! ### continuations that contain release-all calls (further tablet-mode changes) -/
+
+/-- the response of the mapper to one operation: a `StepResult` for a key event; for `release_all` its
+events (the loop sets the repeat timer idle on a tablet-mode change: recorded as `disabled`) -/
+def opResp (L : Layout) (s : State) : Op → State × StepResult
+  | Op.ev e => step L s e
+  | Op.relAll => ((releaseAll L s).1, ⟨(releaseAll L s).2, RRepeat.disabled⟩)
+
+def runOps (L : Layout) : State → List Op → State × List StepResult
+  | s, [] => (s, [])
+  | s, op :: ops => ((runOps L (opResp L s op).1 ops).1, (opResp L s op).2 :: (runOps L (opResp L s op).1 ops).2)
+
+theorem releaseAllLoop_eqv (L : Layout) (P : List Key) (ks : List Key) {s t : State} (h : Inv L P s) (he : Eqv s t) :
+    (releaseAllLoop L s ks).2 = (releaseAllLoop L t ks).2 ∧ Eqv (releaseAllLoop L s ks).1 (releaseAllLoop L t ks).1 := by
+  induction ks generalizing s t with
+  | nil => exact ⟨rfl, he⟩
+  | cons k ks ih =>
+    have heq : ∀ u : State, releaseAllLoop L u (k :: ks) =
+        ((releaseAllLoop L (step L u (Event.released k)).1 ks).1,
+         (step L u (Event.released k)).2.events ++ (releaseAllLoop L (step L u (Event.released k)).1 ks).2) :=
+      fun _ => rfl
+    rw [heq s, heq t]
+    have q := step_eqv L h.i he (Event.released k)
+    have hi : Inv L P (step L s (Event.released k)).1 :=
+      (step_inv L P s (Event.released k) h).1.monoP
+        (by intro x hx; simp only [applyEv, List.mem_filter] at hx; exact hx.1)
+    have r := ih hi q.2
+    exact ⟨by simp only; rw [q.1, r.1], r.2⟩
+
+theorem opResp_eqv (L : Layout) (P : List Key) {s t : State} (h : Inv L P s) (he : Eqv s t) (op : Op) :
+    (opResp L s op).2 = (opResp L t op).2 ∧ Eqv (opResp L s op).1 (opResp L t op).1 := by
+  cases op with
+  | ev e => exact step_eqv L h.i he e
+  | relAll =>
+    have r := releaseAllLoop_eqv L P s.inp h he
+    simp only [opResp, releaseAll]
+    rw [← he.inp]
+    exact ⟨by rw [r.1], r.2⟩
+
+theorem runOps_eqv (L : Layout) (x : Sys) (hx : Reachable L x) (t : State) (he : Eqv x.s t) (ops : List Op) :
+    (runOps L x.s ops).2 = (runOps L t ops).2 := by
+  induction ops generalizing x t with
+  | nil => rfl
+  | cons op ops ih =>
+    simp only [runOps]
+    have q := opResp_eqv L x.P hx.sinv.inv he op
+    rw [q.1]
+    congr 1
+    have hn := hx.next op
+    have hs : (x.next L op).s = (opResp L x.s op).1 := by cases op <;> rfl
+    have := ih (x.next L op) hn (opResp L t op).1 (by rw [hs]; exact q.2)
+    rw [hs] at this
+    exact this
+
+/-- C06 for continuations with further release-all calls: after rest or a release-all the mapper answers EVERY
+sequence of key events and release-all calls exactly as a fresh mapper does -/
+theorem C06_ops (L : Layout) (h1 : List Op) (h2 : List Op)
+    (hend : (Sys.run L Sys.init h1).P = [] ∨ ∃ h1', h1 = h1' ++ [Op.relAll]) :
+    (runOps L (Sys.run L Sys.init h1).s h2).2 = (runOps L State.init h2).2 := by
+  have hx : Reachable L (Sys.run L Sys.init h1) := ⟨h1, rfl⟩
+  apply runOps_eqv L _ hx
+  rcases hend with hP | ⟨h1', rfl⟩
+  · have hinp : (Sys.run L Sys.init h1).s.inp = [] := by
+      apply List.eq_nil_iff_forall_not_mem.mpr
+      intro k hk; have := hx.sinv.inv.inpP k hk; rw [hP] at this; simp at this
+    exact rest_eqv_init hx hinp
+  · have hr : Sys.run L Sys.init (h1' ++ [Op.relAll]) = (Sys.run L Sys.init h1').next L Op.relAll := by
+      simp [Sys.run, List.foldl_append]
+    have hx' : Reachable L (Sys.run L Sys.init h1') := ⟨h1', rfl⟩
+    have ra := releaseAll_spec L _ _ hx'.sinv.inv
+    have hinp : ((Sys.run L Sys.init h1').next L Op.relAll).s.inp = [] := ra.2.2.2.1
+    rw [hr]
+    exact rest_eqv_init (hx'.next Op.relAll) hinp
+
 end TmVerif
